@@ -407,7 +407,7 @@ func (c *Ctx) strLit(v string) string {
 	n := fmt.Sprintf("str!%d", len(c.strLits))
 	c.strLits[v] = n
 	c.decls = append(c.decls, fmt.Sprintf("(declare-const %s Str) ; %q", n, truncate(v, 40)))
-	c.decls = append(c.decls, fmt.Sprintf("(assert (= (strlen %s) %d))", n, len(v)))
+	c.decls = append(c.decls, fmt.Sprintf("(assert (= (strlen %s) %s))", n, c.ar.idx(int64(len(v)))))
 	// distinctness from other literals
 	for o, on := range c.strLits {
 		if o != v {
@@ -517,7 +517,7 @@ func (c *Ctx) sliceWF(sv SliceV) string {
 		return fmt.Sprintf("(and (bvsle %s %s) (bvsle %s %s) (bvsle %s %s) (bvsle %s %s) (bvsle %s %s))", z, sv.Off, z, sv.Len, sv.Len, sv.Cap,
 			sv.Off, c.ar.idx(1<<40), sv.Cap, c.ar.idx(1<<40))
 	}
-	return fmt.Sprintf("(and (<= 0 %s) (<= 0 %s) (<= %s %s) (=> (= %s rnil) (= %s 0)))", sv.Off, sv.Len, sv.Len, sv.Cap, sv.Arr, sv.Cap)
+	return fmt.Sprintf("(and (<= 0 %s) (<= 0 %s) (<= %s %s) (<= %s 1099511627776) (<= %s 1099511627776) (=> (= %s rnil) (= %s 0)))", sv.Off, sv.Len, sv.Len, sv.Cap, sv.Off, sv.Cap, sv.Arr, sv.Cap)
 }
 
 // typeRangeAssume adds machine-range assumptions for every int component of v.
